@@ -457,17 +457,30 @@ type ruleWrap struct {
 }
 
 func (r *ruleWrap) VoteRule(view hotstuff.View, p hotstuff.ProposeMsg) bool {
-	ok := r.Ruleset.VoteRule(view, p)
+	// observers look at the store before the rule runs (the rule may fetch blocks) and get the verdict afterwards
+	var after []func(vote bool, commit *hotstuff.Block)
 	for _, f := range r.nd.w.hooks.onRule {
-		f(r.nd, "vote", view, &p, p.Block, ok, nil)
+		after = append(after, f(r.nd, "vote", view, &p, p.Block))
+	}
+	ok := r.Ruleset.VoteRule(view, p)
+	for _, f := range after {
+		if f != nil {
+			f(ok, nil)
+		}
 	}
 	return ok
 }
 
 func (r *ruleWrap) CommitRule(b *hotstuff.Block) *hotstuff.Block {
-	c := r.Ruleset.CommitRule(b)
+	var after []func(vote bool, commit *hotstuff.Block)
 	for _, f := range r.nd.w.hooks.onRule {
-		f(r.nd, "commit", 0, nil, b, false, c)
+		after = append(after, f(r.nd, "commit", 0, nil, b))
+	}
+	c := r.Ruleset.CommitRule(b)
+	for _, f := range after {
+		if f != nil {
+			f(false, c)
+		}
 	}
 	return c
 }
